@@ -18,8 +18,7 @@ TECHNIQUE = 'Coq proof (init succeeds iff the description is well formed; first-
 LEVEL_TEXT = ('Theorems in Properties_C04.v about Model/RegTable.v: initialisation succeeds iff there is an area, areas and entries are each ordered and disjoint, and the defaults load - which happens '
               'only if every register lies wholly inside one area (the other failure being a default its own constraint refuses); otherwise the FIRST violated rule is reported in the order no-areas < area order/overlap < '
               'entry order/overlap < entry placement/default with the index of the first offending element (the checks are proved equal to a declarative first-break search); a failed initialisation leaves the table '
-              'uninitialised, the flag is set exactly by success, and every operation on an uninitialised table reports UNINITIALISED and changes nothing.  After a successful initialisation of a table whose areas are memory backed (or read/write callback pairs) the table satisfies the invariant of C05, its entries are unchanged and EVERY register reads back its default (C04_post_state) and every memory word no register covers is zero (C04_post_state_other_words_zero).  Correspondence only (partial): '
-              'first/last/count describe the run of registers in each area.')
+              'uninitialised, the flag is set exactly by success, and every operation on an uninitialised table reports UNINITIALISED and changes nothing.  After a successful initialisation of a table whose areas are memory backed (or read/write callback pairs) the table satisfies the invariant of C05, its entries are unchanged and EVERY register reads back its default (C04_post_state) every memory word no register covers is zero (C04_post_state_other_words_zero), and the first/last/count fields of every area describe exactly the contiguous run of registers whose address lies in it (C04_post_state_area_fields).')
 LEVEL_NOTE = 'Trusted: Coq kernel; hand model of register_init (correspondence-tested on the layout grid). No axioms.'
 
 def gen(rng, tier):
